@@ -67,7 +67,7 @@ func C07() *vk.Check {
 	return &vk.Check{
 		ID:    "C07",
 		Level: "exploration",
-		Rule: "differential, no model: the same generated application, configuration and input history are served (a) by one long-lived engine and (b) by a fresh store handle + persister + engine per request (Exec, Flush, Finish) on each backend (mem, fs, fs binary-key, Postgres driver fake); outputs, continue flags and error classes are compared request by request up to the end of the session, and after every save the stored snapshot is re-read through a fresh handle and must equal the live state/cache field by field. " +
+		Rule: "differential, no model: the same generated application, configuration and input history are served (a) by one long-lived engine and (b) by a fresh store handle + persister + engine per request (Exec, Flush, Finish) on each backend (mem, fs, fs binary-key, Postgres driver fake); outputs, continue flags and error classes are compared request by request up to the end of the session (also for two sessions whose requests alternate on the same store), and after every save the stored snapshot is re-read through a fresh handle and must equal the live state/cache field by field. " +
 			"distinct = hash(app, config, history); non-trivial = the history reached at least 3 successful renders and 2 distinct nodes.",
 		Assumptions:    []string{"error *classes* (error vs none) are compared, not error texts", "histories stop at the first cont=false or failing request (behaviour after a failed request is unspecified)"},
 		MinEvaluations: 200,
@@ -258,6 +258,60 @@ func c07Compare(c *vk.Ctx, key string, a *app.App, cfg app.Config, hist []string
 				c.Count("snapshots_reread", 1)
 				if !o.Cont || o.ExecErr != "" || o.FlushErr != "" {
 					break
+				}
+			}
+			// two sessions whose requests alternate on the same store: each must still equal its own uninterrupted run
+			{
+				hist2 := []string{""}
+				for x := len(hist) - 1; x >= 1; x-- {
+					hist2 = append(hist2, hist[x])
+				}
+				cfg2 := cfg
+				cfg2.SessionId = cfg.SessionId + "-two"
+				ll2 := app.NewLongLived(a, cfg2)
+				var ref2 []*app.Obs
+				for _, in := range hist2 {
+					o := ll2.Request([]byte(in))
+					ref2 = append(ref2, o)
+					if !o.Cont || o.ExecErr != "" || o.FlushErr != "" || o.Panic != "" {
+						break
+					}
+				}
+				ll2.Close()
+				bi, err := app.NewBackend(bk)
+				if err == nil {
+					prA := app.NewPerRequest(a, cfg, bi)
+					prB := app.NewPerRequest(a, cfg2, bi)
+					prA.SkipStoredRead, prB.SkipStoredRead = true, true
+					okA, okB := true, true
+					for step := 0; step < len(ref) || step < len(ref2); step++ {
+						for which, pr := range []*app.PerRequest{prA, prB} {
+							rf, h, ok := ref, hist, &okA
+							if which == 1 {
+								rf, h, ok = ref2, hist2, &okB
+							}
+							if !*ok || step >= len(rf) {
+								continue
+							}
+							o := pr.Request([]byte(h[step]))
+							c.Count("interleaved_requests", 1)
+							ro := rf[step]
+							if o.Panic != "" || ro.Panic != "" {
+								*ok = false
+								continue
+							}
+							if o.Cont != ro.Cont || app.ErrClass(o.ExecErr) != app.ErrClass(ro.ExecErr) || app.ErrClass(o.FlushErr) != app.ErrClass(ro.FlushErr) || o.Out != ro.Out {
+								c.Violate("interleaved-sessions-diverge:"+bk, fmt.Sprintf("two sessions alternating on one %s store: session %d step %d: uninterrupted %s | persisted %s", bk, which+1, step, ro.Brief(), o.Brief()), key,
+									map[string]interface{}{"backend": bk, "config": cfg, "app": a.Describe(), "history_session_1": hist, "history_session_2": hist2})
+								okA, okB = false, false
+								continue
+							}
+							if !o.Cont || o.ExecErr != "" || o.FlushErr != "" {
+								*ok = false
+							}
+						}
+					}
+					bi.Cleanup()
 				}
 			}
 			if bk == "pg" {
